@@ -75,6 +75,41 @@ pub fn zero_window_update_lost(view: &WireView, ci: usize, from_init: bool, t_fa
     reopen_sent
 }
 
+/// Same family, by reordering instead of loss: the last packet the sender was handed before
+/// `t_fail` advertises a zero window, but it is *older* than a window-opening packet the sender
+/// had been handed before (the network swapped them; both carry the same acknowledgement number,
+/// so nothing in the packets tells the sender which is newer). The receiver announced the open
+/// window once, the sender ends up believing the window is closed, nothing is in flight, and
+/// there is no zero-window probing to find out.
+pub fn zero_window_update_overtaken(view: &WireView, ci: usize, from_init: bool, t_fail: Us) -> bool {
+    let conn = &view.conns[ci];
+    // (time handed to the sender, position in send order, window, ack)
+    let mut handed: Vec<(Us, usize, usize, u32, u16)> = Vec::new();
+    for (k, &pi) in conn.dir(!from_init).iter().enumerate() {
+        let p = &view.pkts[pi];
+        if let Some(pk) = &p.pkt {
+            if pk.ty == wire::ST_SYN {
+                continue;
+            }
+            for (t, ri) in &p.recvs {
+                if *t < t_fail {
+                    handed.push((*t, *ri, k, pk.wnd, pk.ack));
+                }
+            }
+        }
+    }
+    handed.sort();
+    let last = match handed.last() {
+        Some(x) => *x,
+        None => return false,
+    };
+    if last.3 != 0 {
+        return false;
+    }
+    // an earlier-handed packet that was sent later and opens the window, same acknowledgement
+    handed[..handed.len() - 1].iter().any(|h| h.2 > last.2 && h.3 > 0 && h.4 == last.4)
+}
+
 /// The sender of direction `from_init` has transmitted data into a window it knew to be zero
 /// (the timeout path does that) and has not had new data acknowledged since: it sits in
 /// timeout back-off and will only resume when the backed-off timer fires, even if the window
@@ -364,8 +399,9 @@ pub fn silence_ended_by_segment_larger_than_window(view: &WireView, ci: usize, f
             continue;
         }
         let first_tx = sent.insert(pk.seq);
-        if et >= t {
-            // the first data transmission at or after the start of the silence decides
+        if et > t {
+            // the first data transmission after the start of the silence decides (what was sent at
+            // the very instant the silence begins belongs to the activity before it)
             let all_acked = match (highest_sent, last_ack) {
                 (Some(h), Some(a)) => !wire::seq_lt(a, h),
                 (None, _) => true,
